@@ -4,9 +4,10 @@ CONSTANTS
   NameSeq <- MCNames
   Values <- MCValues
   KindOf <- MCKindOf
+  HSlots = {"s1"}
   Depth = 3
   Emit = TRUE
   CrossKind = FALSE
 INVARIANTS TypeOK ReadAfterWrite MissingFile Leaf
-PROPERTIES ReadOnlyUnchanged SiblingsUndisturbed OnlyTruncRemoves ReopenKeeps
+PROPERTIES ReadOnlyUnchanged OnlyWritersChange SiblingsUndisturbed OnlyTruncRemoves ReopenKeeps
 CHECK_DEADLOCK FALSE
